@@ -188,10 +188,12 @@ pub fn path<'t>(ctx: Context<'t>) -> ParseResult<'t, Identifier> {
     while let T::Identifier(f) = ctx.token() {
         result.push_str(f);
         ctx = ctx.skip(1);
-        if matches!(ctx.token(), T::Slash) {
-            result.push_str("/");
-            ctx = ctx.skip(1);
+        // Two names need a slash between them to be one path.
+        if !matches!(ctx.token(), T::Slash) {
+            break;
         }
+        result.push_str("/");
+        ctx = ctx.skip(1);
     }
 
     Ok((ctx, Identifier::new(span, result)))
